@@ -257,6 +257,7 @@ pub fn restore_plan(g: &Game, budget: usize) -> Option<Vec<Action>> {
 
 /// Plays `max_plies` actions from `g`, visiting (checking, emitting) every state.
 pub fn playout(g: &mut Game, player: &mut Player, max_plies: usize, rng: &mut Rng, rep: &mut Report, sink: &mut Sink, em: Emit) {
+    let mut kept: Option<GameState> = None;
     for ply in 0..=max_plies {
         g.check_state(rep);
         let s = g.state.clone();
@@ -275,6 +276,17 @@ pub fn playout(g: &mut Game, player: &mut Player, max_plies: usize, rng: &mut Rn
         if rng.chance(em.obs_pm, 1000) {
             sink.emit(&format!("S {}", enc_state(&s, g.init_hash)), "ok");
             sink.emit("O", &observe(&s));
+            // `==` / Hash of GameState against the model's equality (transpositions reached by other paths)
+            if let Some(k) = &kept {
+                sink.emit("E", if s == *k { "1" } else { "0" });
+                if (s == *k) != (raw_hash(&s) == raw_hash(k)) {
+                    rep.fail("C08", "eq-differs-from-hash-equality", g, String::new());
+                }
+            }
+            if rng.chance(1, 4) {
+                sink.emit("K", "ok");
+                kept = Some(s.clone());
+            }
             if rng.chance(em.all_t_pm, 1000) {
                 for a in guard(|| s.valid_actions_no_rep()).unwrap_or_default() {
                     g.emit_take(sink, &a);
@@ -512,6 +524,107 @@ pub fn motifs(rng: &mut Rng, limit: usize) -> Vec<(B, bool)> {
             sel.push(out[rng.below(n)]);
         }
         out = sel;
+    }
+    out
+}
+
+/// `List<T>` API against a plain list: random operation sequences (new, append, tail, head, len, iter).
+pub fn list_ops(rng: &mut Rng, n: usize, rep: &mut Report, sink: &mut Sink) {
+    let mut l: List<u64> = List::new();
+    sink.emit("L new", "ok");
+    for _ in 0..n {
+        rep.count("list-ops");
+        match rng.below(8) {
+            0 => {
+                if rng.chance(1, 6) {
+                    l = List::new();
+                    sink.emit("L new", "ok");
+                }
+            }
+            1 | 2 | 3 => {
+                let x = rng.next() % 1000;
+                l = l.append(x);
+                sink.emit(&format!("L append {}", x), "ok");
+            }
+            4 => {
+                l = l.tail();
+                sink.emit("L tail", "ok");
+            }
+            5 => sink.emit("L head", &l.head().map_or("none".to_string(), |v| v.to_string())),
+            6 => {
+                sink.emit("L len", &l.len().to_string());
+                sink.emit("L empty", if l.is_empty() { "1" } else { "0" });
+            }
+            _ => {
+                let c = l.clone();
+                let v: Vec<String> = c.iter().map(|x| x.to_string()).collect();
+                sink.emit("L iter", &if v.is_empty() { "-".to_string() } else { v.join(",") });
+            }
+        }
+    }
+}
+
+/// Boxed-in positions: a fully occupied k x l block anchored in a corner (both colours mixed), a
+/// few pieces elsewhere.  Exercises "no legal step" against pushes out of an enclosed position.
+pub fn boxed_positions(rng: &mut Rng, n: usize) -> Vec<(B, bool)> {
+    let mut out = vec![];
+    let lim = [8u8, 2, 2, 2, 1, 1];
+    for _ in 0..n {
+        let mut b: B = [None; 64];
+        let mut cnt = [[0u8; 6]; 2];
+        let (k, l) = (2 + rng.below(2), 2 + rng.below(2));
+        let corner = rng.below(4);
+        for r in 0..k {
+            for f in 0..l {
+                let (rr, ff) = match corner {
+                    0 => (r, f),
+                    1 => (r, 7 - f),
+                    2 => (7 - r, f),
+                    _ => (7 - r, 7 - f),
+                };
+                let i = rr * 8 + ff;
+                for _ in 0..6 {
+                    let g = rng.chance(1, 2);
+                    let t = [0usize, 0, 1, 2, 3, 4, 5, 1][rng.below(8)];
+                    if cnt[g as usize][t] < lim[t] && !(t == 0 && (rr == 0 || rr == 7)) {
+                        b[i] = Some((g, t as u8));
+                        cnt[g as usize][t] += 1;
+                        break;
+                    }
+                }
+            }
+        }
+        // sometimes leave exactly one hole next to the block so that a push has room
+        if rng.chance(1, 3) {
+            let occ: Vec<usize> = (0..64).filter(|i| b[*i].is_some()).collect();
+            if let Some(&i) = occ.get(rng.below(occ.len().max(1))) {
+                if TRAPS.iter().all(|t| *t != i) {
+                    let c = b[i].unwrap();
+                    cnt[c.0 as usize][c.1 as usize] -= 1;
+                    b[i] = None;
+                }
+            }
+        }
+        for g in [true, false] {
+            if cnt[g as usize][0] == 0 || rng.chance(1, 2) {
+                for _ in 0..10 {
+                    let i = 16 + rng.below(32);
+                    if b[i].is_none() && !TRAPS.contains(&i) && (0..4).all(|d| nb(i, d).map_or(true, |j| b[j].is_none())) {
+                        b[i] = Some((g, 0));
+                        break;
+                    }
+                }
+            }
+        }
+        let s0 = b;
+        for t in TRAPS {
+            if let Some((g, _)) = s0[t] {
+                if !friend(&s0, t, g) {
+                    b[t] = None;
+                }
+            }
+        }
+        out.push((b, rng.chance(1, 2)));
     }
     out
 }
